@@ -42,8 +42,28 @@ class Observer(object):
             self.cache[key] = v
         return v
 
+    def other_spelling(self, b):
+        """the same number written the other way (2 <-> 2.0), when both spellings denote exactly the same value"""
+        if isinstance(b, float) and b == int(b) and abs(b) < 2 ** 53:
+            return int(b)
+        if isinstance(b, int) and abs(b) < 2 ** 53:
+            return float(b)
+        return None
+
     def observe(self, x, b):
         obs, exc = [], []
+        # the process has already met the bound / divisor in its OTHER spelling (the verdict may differ between the
+        # spellings -- 2**53+1 is no multiple of 2 but its float quotient by 2.0 is integral -- and nothing learnt
+        # about one may be applied to the other)
+        ob = self.other_spelling(b)
+        if ob is not None:
+            for row in self.validators(ob):
+                for v in row:
+                    if v is not None:
+                        try:
+                            v.is_valid(x)
+                        except Exception:  # noqa
+                            pass
         for row in self.validators(b):
             o = []
             for v in row:
